@@ -279,7 +279,7 @@ CATEGORY = "other"
 LEVEL_TEXT = ("Mixed: deductive (pyvc + z3, 64-bit bit-vector mode) for _doublesipround, SipHash-2-4 and murmur3 at fixed lengths, Golomb-Rice "
               "encode/decode for x < 2^22, pack/unpack, serialize_gcs on three values, CFHeaders chaining, bloom bit positions on a small "
               "instance; whole-filter no-false-negative / exact-encoding claims are bounded (sizes 0..2000, colliding pairs found by search). "
-              "Claimed as 'other': the no-false-negative clause FAILS on the pinned tree (CompactFilter derives F from the de-duplicated hash set).")
+              "Claimed as 'other' because the whole-filter clauses are bounded.  The defects these checks found on the pinned tree are repaired by fix: commits in /repo (one `fixed:` line each in /verif/KNOWN_FINDINGS.jsonl).")
 LEVEL_NOTE = ("trusted: pyvc translation (A-ENGINE), spec functions (A-SPEC), harnesses, CPython builtin contracts (A-BUILTIN); whole-filter "
               "claims bounded; termination not verified")
 JOB_TIMEOUT = {"quick": 240, "thorough": 1500}
